@@ -355,8 +355,15 @@ func doCheck(p *Prop, tier string, verifSeed uint64, lanes int, scale, maxMinute
 		for _, s := range a.selfdiverge {
 			fmt.Fprintln(os.Stderr, "NONDETERMINISM:", s)
 		}
-		fmt.Fprintln(os.Stderr, "verif: simulator not deterministic; exiting 2")
-		return 2
+		// On the unchanged tree the engines replay exactly (./check selftest). A divergence here means the
+		// code under test has grown concurrency or another source of nondeterminism the simulator does not own.
+		// Violations found are still reported (their replay may then be statistical); without any, the run is
+		// not trusted.
+		if len(a.violations) == 0 {
+			fmt.Fprintln(os.Stderr, "verif: simulator not deterministic and nothing found; exiting 2")
+			return 2
+		}
+		fmt.Fprintln(os.Stderr, "verif: simulator not deterministic on this tree; violations below may replay only statistically")
 	}
 	// violations
 	known := loadFindings()
